@@ -1,6 +1,3 @@
-import json
-import os
-
 import vlib
 
 CFG = {
@@ -31,9 +28,11 @@ CFG = {
     "technique": "Coq proof (induction over property lists, records, header lines, faces; composition to whole files) + vm_compute correspondence check",
     "design_ref": "DESIGN.md §4 C08",
     "n_quick": 180, "n_thorough": 6000,
-    "rule": "fixed streams on every run, independent of the seed: 8 formula files past internal block sizes (24/25/27/40-byte "
-            "records around 64 KiB, 65540 one-byte records with vertex numbers above 65535, ascii body and binary / ascii "
-            "face blocks above 64 KiB; fingerprints), 30 files whose number of face corners equals / is one triangle away "
+    "rule": "fixed streams on every run, independent of the seed: formula files past internal block sizes (quick: 65540 "
+            "one-byte little-endian records followed by faces with vertex numbers above 65535; thorough: also "
+            "24/25/27/40-byte records around 64 KiB in both byte orders, an ascii body and binary / ascii face blocks "
+            "above 64 KiB; fingerprints), two ascii files with a face line longer than 64 KiB, the same property names with other types "
+            "read right after one another, 30 files whose number of face corners equals / is one triangle away "
             "from the number of vertices with permuted, identity and repeated indices, 23 malformed or unimplemented files "
             "(model vs implementation), and systematic files (per encoding: every recognised group with its "
             "members permuted and unrelated properties of other sizes between them; float triples whose outer members "
@@ -51,7 +50,7 @@ CFG = {
             "corners), ascii/LE/BE; every 10th file a pair through the same reader (first mesh rendered after a second "
             "file of the same layout was read / first file read again / same names with other types read right after); "
             "every 4th file and all fixed files also through a reader with short reads, ply.Load and the ReadNode wrapper; "
-            "every 60th a random formula file around a power-of-two body size; 1/12 cut streams; a small share outside the quantifier "
+            "one random formula file around a power-of-two body size per quick run (every 60th file in a thorough run); 1/12 cut streams; a small share outside the quantifier "
             "(char/short/ushort/uint, vertex list property, n-gons, unusual count/index types) compared with the model "
             "only; distinct by file bytes; non-trivial = at least one vertex and three properties",
     "trusted": ["formula files (Formats/PlyBig.v): body and mesh are compared through 63-bit rolling fingerprints "
@@ -67,25 +66,5 @@ CFG = {
 }
 
 
-LONG_LINE_KEY = "ply:line-over-64KiB"
-
-
-def _long_lines_enabled():
-    """An ascii face line longer than bufio.Scanner's 64 KiB token (a face with a long extra list property) makes HEAD's
-    ReadMesh fail with "unexpected EOF" (finding, repair proposed in fixes/C08-ply-long-ascii-lines.patch).  Such files
-    are generated once known_findings.json lists the key (status known: reported as KNOWN-FINDING; status fixed: the
-    repaired reader must take them), or on request (C08_LONGLINES=1)."""
-    if os.environ.get("C08_LONGLINES"):
-        return True
-    try:
-        data = json.load(open(os.path.join(vlib.VERIF, "known_findings.json")))
-        return any(e.get("key") == LONG_LINE_KEY for e in data.get("findings", []))
-    except Exception:
-        return False
-
-
 def main(argv):
-    cfg = dict(CFG)
-    if _long_lines_enabled():
-        cfg["extra_args"] = ["-longlines"]
-    return vlib.standard_check(cfg, argv)
+    return vlib.standard_check(CFG, argv)
